@@ -30,9 +30,9 @@ var (
 type c34SizeType struct {
 	name     string
 	signed   bool
-	v1       bool                                 // bare k/m/g are binary (1.x), has MarshalText
-	parse    func(text string) (*big.Int, error)  // UnmarshalText
-	written  func(v *big.Int) string              // what the configuration layer writes for the value
+	v1       bool                                       // bare k/m/g are binary (1.x), has MarshalText
+	parse    func(text string) (*big.Int, error)        // UnmarshalText
+	written  func(v *big.Int) string                    // what the configuration layer writes for the value
 	viaTOML  func(v *big.Int) (*big.Int, error, string) // real BurntSushi encoder → decoder; returns the document too
 	isActive bool
 }
